@@ -89,7 +89,7 @@ def run_engine_k(pid, tier, seed, out, ev):
     names = {}
     for h in hs:
         names[annot.modpath_for(h.file) + "::" + h.fn] = h
-    jobs = int(os.environ.get("VERIF_JOBS", "12"))
+    jobs = int(os.environ.get("VERIF_JOBS", "10"))
     default_to = 1500 if tier == "quick" else 5400
 
     def prog(r):
@@ -102,7 +102,7 @@ def run_engine_k(pid, tier, seed, out, ev):
     t0 = time.time()
     from concurrent.futures import ThreadPoolExecutor
     with ThreadPoolExecutor(max_workers=jobs) as ex:
-        futs = {n: ex.submit(kani.run_harness, scratch, tdir, n, logdir, (names[n].timeout or default_to) * (1 if tier == "quick" else 3), 14) for n in order}
+        futs = {n: ex.submit(kani.run_harness, scratch, tdir, n, logdir, (names[n].timeout or default_to) * (1 if tier == "quick" else 3), 20) for n in order}
         for n in order:
             results[n] = futs[n].result()
             prog(results[n])
